@@ -749,7 +749,7 @@ func (k *c19) headers() {
 			return true
 		}
 		switch v {
-		case 0x7fff, 0x8000, 0x8001, 0x00ff + 0x1000, 0x1000, 0x4000, 0xff00, 0xfeff, 0x0fff, 32767 - 1, 4095, 4097, 16383, 16385:
+		case 0x7fff, 0x8000, 0x8001, 0x10ff, 0x1000, 0x4000, 0xff00, 0xfeff, 0x0fff, 0x7ffe, 4097, 16383, 16385:
 			return true
 		}
 		return v&0xff == 0 && v < 0x2000
